@@ -255,7 +255,14 @@ func runC19(r *hx.Run, replay string) {
 		for g, n := 0, 1+rr.Intn(3); g < n; g++ {
 			fmt.Fprintf(&sb, "- name: g%d\n", g)
 			if rr.Intn(3) == 0 {
-				sb.WriteString("  interval: 1m\n")
+				sb.WriteString("  interval: " + hx.Pick(rr, []string{"1m", "30s", "1h30m", "\"2m\"", "1d", "90s"}) + "\n")
+			}
+			if rr.Intn(3) == 0 {
+				// every spelling yaml.v3 tags !!int: strict mode accepts the tag, whatever strconv thinks of the text
+				sb.WriteString("  limit: " + hx.Pick(rr, []string{"0", "10", "-1", "0x10", "0o17", "0b101", "1_000", "+5", "007"}) + "\n")
+			}
+			if rr.Intn(4) == 0 {
+				sb.WriteString("  query_offset: " + hx.Pick(rr, []string{"30s", "1m", "0s", "\"5m\""}) + "\n")
 			}
 			if rr.Intn(4) == 0 {
 				sb.WriteString("  labels:\n    team: a\n")
